@@ -51,8 +51,8 @@ Print Assumptions C15_standard_custom_partition.
 Theorem C15_history_tables : forall (ops : list op) (s : st),
   let s' := run s ops in
   extra s' = extra s /\ cfmin s' = cfmin s /\ cfmax s' = cfmax s /\ txp s' = txp s /\
-  down s' = down s ++ adds (extra s) ops /\
-  map ident (up s') = map ident (up s ++ adds (extra s) ops).
+  down s' = down s ++ adds (extra s) (updr s) ops /\
+  map ident (up s') = map ident (up s ++ adds (extra s) (updr s) ops).
 Proof. exact run_tables. Qed.
 Print Assumptions C15_history_tables.
 
@@ -89,11 +89,44 @@ Print Assumptions C15_set_enabled_effect.
 
 Theorem C15_call_outcomes : forall (s : st) o,
   snd (step s o) = match o with
-                   | AddChannel _ _ _ => if extra s then Ok tt else Err
+                   | AddChannel f mn mx => if accepts (extra s) (updr s) f mn mx then Ok tt else Err
                    | Disable i | Enable i => if (0 <=? i) && (i <? zlen (up s)) then Ok tt else Err
                    end.
 Proof. exact step_outcome. Qed.
 Print Assumptions C15_call_outcomes.
+
+(* what AddChannel accepts (code after the fix for findings C15-8 / C15-9): the band takes
+   extra channels, the data-rate range is made of uplink data-rates of the band, the
+   frequency is one the NewChannelReq encoder accepts (0 = unused slot included) *)
+Theorem C15_addchannel_data_rates : forall drs mn mx,
+  valid_dr_range drs mn mx = true <-> mn <= mx /\ forall d, mn <= d <= mx -> In d drs.
+Proof. exact valid_dr_range_spec. Qed.
+Print Assumptions C15_addchannel_data_rates.
+
+Theorem C15_addchannel_frequency : forall ch f mx mn, 0 <= mx <= 15 -> 0 <= mn <= 15 ->
+  (valid_channel_freq f = true <-> exists bs, newchannelreq_marshal ch f mx mn = Ok bs).
+Proof. exact accepted_freq_newchannelreq. Qed.
+Print Assumptions C15_addchannel_frequency.
+
+(* hence, after ANY history, every appended channel has a data-rate range of uplink
+   data-rates of the band and a frequency NewChannelReq can carry *)
+Theorem C15_added_channels_accepted : forall ext drs ops c, In c (adds ext drs ops) ->
+  ext = true /\ valid_dr_range drs (minDR c) (maxDR c) = true /\ valid_channel_freq (freq c) = true /\ custom c = true.
+Proof. exact adds_accepted. Qed.
+Print Assumptions C15_added_channels_accepted.
+
+(* the code before the fix accepted every argument *)
+Theorem C15_addchannel_prefix_refuted :
+  let s := mkSt true 0 5 [] [] [] [0; 1; 2; 3; 4; 5; 6; 7] in
+  snd (add_channel_prefix s 867100000 (-1) 16) = Ok tt /\ snd (add_channel s 867100000 (-1) 16) = Err /\
+  snd (add_channel_prefix s 867100000 0 9223372036854775807) = Ok tt /\
+  snd (add_channel s 867100000 0 9223372036854775807) = Err /\
+  snd (add_channel_prefix s 867100050 0 5) = Ok tt /\ snd (add_channel s 867100050 0 5) = Err /\
+  snd (add_channel_prefix s 1677721600 0 5) = Ok tt /\ snd (add_channel s 1677721600 0 5) = Err /\
+  snd (add_channel s 867100000 0 5) = Ok tt /\ snd (add_channel s 0 0 5) = Ok tt /\
+  snd (add_channel s 2426000000 0 7) = Ok tt.
+Proof. exact add_channel_prefix_refuted. Qed.
+Print Assumptions C15_addchannel_prefix_refuted.
 
 Theorem C15_history_never_panics : forall (ops : list op) (s : st), Forall (fun o => o <> Panic) (run_outcomes s ops).
 Proof. exact history_never_panics. Qed.
@@ -167,7 +200,7 @@ Print Assumptions C15_lookup_by_frequency_dr_spec.
 Theorem C15_lookup_by_frequency_dr_prefix_refuted :
   let c1 := mkChannel 868300000 6 6 true true in
   let c2 := mkChannel 868300000 7 7 true true in
-  let s := mkSt true 0 5 [c1; c2] [c1; c2] [] in
+  let s := mkSt true 0 5 [c1; c2] [c1; c2] [] [0; 1; 2; 3; 4; 5; 6; 7] in
   get_uplink_channel_index_for_frequency_dr_prefix s 868300000 7 = Err /\
   matches_freq_dr (up s) 868300000 7 1 = true /\
   get_uplink_channel_index_for_frequency_dr s 868300000 7 = Ok 1.
@@ -189,7 +222,7 @@ Print Assumptions C15_cflist_content.
 Theorem C15_cflist_zero_slot_prefix_refuted :
   let c0 := mkChannel 0 0 5 false true in
   let c1 := mkChannel 867100000 0 5 true true in
-  let s := mkSt true 0 5 [c0; c1] [c0; c1] [] in
+  let s := mkSt true 0 5 [c0; c1] [c0; c1] [] [0; 1; 2; 3; 4; 5; 6; 7] in
   cflist_channels_prefix s = None /\ cflist_channels s = Some (CFChannels [0; 867100000; 0; 0; 0]).
 Proof. exact cflist_channels_prefix_refuted. Qed.
 Print Assumptions C15_cflist_zero_slot_prefix_refuted.
@@ -386,7 +419,7 @@ Print Assumptions C15_mac_roundtrips.
    CFList data-rate range; index -1 and 5 are errors; the CFList offers only the
    first; US915 (configuration 44) with channels 64-71 disabled: last mask zero *)
 Example C15_example :
-  let s0 := match nth_error configs 32 with Some (_, _, _, s) => s | None => mkSt false 0 0 [] [] [] end in
+  let s0 := match nth_error configs 32 with Some (_, _, _, s) => s | None => mkSt false 0 0 [] [] [] [] end in
   let s := run s0 [AddChannel 867100000 0 5; AddChannel 867300000 6 6; Disable (-1); Disable 1] in
   run_outcomes s0 [AddChannel 867100000 0 5; AddChannel 867300000 6 6; Disable (-1); Disable 1]
     = [Ok tt; Ok tt; Err; Ok tt] /\
